@@ -19,6 +19,8 @@ import Kanzi.Drv.RLT
 import Kanzi.Drv.Ans1
 import Kanzi.Drv.CM
 import Kanzi.Drv.SRT
+import Kanzi.Drv.CliPaths
+import Kanzi.Drv.ImageGen
 
 open Kanzi
 
@@ -186,5 +188,7 @@ def main (args : List String) : IO UInt32 := do
   | ["ans1"] => loop stdin stdout Kanzi.Drv.ans1; return 0
   | ["cmpred"] => loop stdin stdout Kanzi.Drv.cmpred; return 0
   | ["srt"] => loop stdin stdout Kanzi.Drv.srt; return 0
+  | ["clipath"] => loop stdin stdout Kanzi.Drv.clipath; return 0
+  | ["imagegen"] => loop stdin stdout Kanzi.Drv.imagegen; return 0
   | ["image"] => loop stdin stdout Kanzi.Drv.image; return 0
   | _ => IO.eprintln "usage: kmodel <norm>"; return 2
